@@ -208,8 +208,8 @@ def step (s : St) (kind : String) (args impl : List String) : Option (St × Step
     let k ← key? kt
     let ok ← (if oc = "ok" then some true else if oc = "fail" then some false else none)
     match stepO s.m (.finish k ok) with
-    | (m1, .removed) => let (m2, st) := settle m1; fin m2 s.pollActive ["ok"] st "fin.removed"
-    | (m1, .markedFailed) => let (m2, st) := settle m1; fin m2 s.pollActive ["ok"] st "fin.failed"
+    | (m1, .removed) => let (m2, st) := settle m1; fin m2 s.pollActive ["ok"] st (if s.m.mode = .closing then "fin.removed.closing" else "fin.removed")
+    | (m1, .markedFailed) => let (m2, st) := settle m1; fin m2 s.pollActive ["ok"] st (if s.m.mode = .closing then "fin.failed.closing" else "fin.failed")
     | (m1, .errNotFound) => fin m1 s.pollActive ["err"] [] "fin.notfound"
     | (m1, _) => fin m1 s.pollActive ["none"] [] "fin.none"
   | ["adv", nt] => do
@@ -218,8 +218,15 @@ def step (s : St) (kind : String) (args impl : List String) : Option (St × Step
     else fin (stepO s.m (.advance n)).1 s.pollActive ["ok"] [] "adv"
   | ["close"] =>
     if s.m.mode ≠ .up then fin s.m s.pollActive ["none"] [] "close.none"
-    else if busyNow s then fin s.m s.pollActive ["busy"] [] "close.busy"
-    else fin (stepO s.m .close).1 s.pollActive ["ok"] [] "close.ok"
+    else
+      let has (f : Place → Bool) : Bool := s.m.own.any fun e => f e.2
+      let running := has fun p => match p with | .running _ => true | _ => false
+      let queued := has fun p => match p with | .queued _ => true | _ => false
+      -- Close while executions are running (it waits for them); not with a parked Add / poll pass or a
+      -- queued task next to a busy worker (select between `done` and the channel is a coin toss)
+      if s.pollActive || has (fun p => match p with | .adding | .retrying => true | _ => false) || (running && queued) then
+        fin s.m s.pollActive ["busy"] [] "close.busy"
+      else fin (stepO s.m .close).1 s.pollActive ["ok"] [] (if running then "close.running" else "close.ok")
   | ["crash"] =>
     if s.m.mode = .down then fin s.m s.pollActive ["none"] [] "crash.none"
     else fin (stepO s.m .crash).1 false ["ok"] []
